@@ -7,8 +7,8 @@ package wrappers
 // dirs.{SnapMountDir,SnapBinariesDir,SnapDesktopFilesDir,SetRootDir}.
 //
 // Oracle (c27Judge): an independent re-parse of the OUTPUT the way a desktop entry
-// consumer reads it (split on "\n", strip surrounding white space of lines and
-// keys), asserting only what the property states:
+// consumer reads it (split on "\n", skip white space in front of lines and around
+// keys; values are taken literally), asserting only what the property states:
 //
 //	line    every line is blank, a comment, a header, or key=value          (sentence 1)
 //	header  headers are [Desktop Entry] / [Desktop Action <id>] / [<id> Shortcut Group]
@@ -315,12 +315,16 @@ func c27Judge(w c27World, out string) (viols []c27Viol, facts c27OutFacts) {
 	for i, raw := range lines {
 		wasEntry := prevEntry
 		prevEntry = false
-		t := strings.TrimFunc(raw, c27IsWS)
+		// readers skip white space in front of a line; what follows a value is
+		// part of the value (GKeyFile keeps it; the statement says nothing else),
+		// only group headers are compared with their trailing blanks removed
+		t := strings.TrimLeftFunc(raw, c27IsWS)
 		if t == "" || t[0] == '#' {
 			continue
 		}
 		facts.Lines++
 		if t[0] == '[' {
+			t = strings.TrimRightFunc(t, c27IsWS)
 			if !c27HeaderOK(t) {
 				bad("header", "output line %d: header %q is not one of the allowed forms", i, c27Clip(t))
 			}
